@@ -96,6 +96,7 @@ RULEDOC = {
  'SA-TERM': 'every loop reachable from open() matches a progress idiom with a positive lower bound',
  'SA-UNITS': 'GMT offsets are stored in the unit the standard prescribes for that field',
  'SA-VBM': 'validate-before-mutate: no persistent write precedes an explicit refusal on any path of a public mutator',
+ 'SA-VBM.assert': 'an internal-error assertion about the call arguments / image configuration that sits after a mutation is covered by an earlier refusal testing the same condition',
  'SA-VBM.reset': 'new()/open() start from freshly initialised state',
 }
 
